@@ -12,7 +12,8 @@ from kverif.common import Deadline, case_rng, stable_hash, tier_value
 
 ID = 'C06'
 LEVEL = 'exploration'
-EXHAUSTIVE = True
+EXHAUSTIVE = False
+EXHAUSTIVE_SCOPE = 'every (world size, divisor k, colocate, cost family) up to the bound is visited, but cost dictionaries are drawn and for W>16 only 5 ranks are instantiated, so the space is not claimed exhaustive'
 RULE = ('exhaustive over world sizes W (quick 1..64, thorough 1..320, plus 98/147/196), every divisor k as k/W, colocate on/off, '
         'cost families (uniform, ties, zeros, geometric, random; 1..2W+1 layers), every local rank for W<=16 else {0,1,W//2,W-1,random}; '
         'construction through KFACPreconditioner (float and enum) with world size/rank patched; '
